@@ -23,7 +23,15 @@ Singles == UNION {{<<a>> : a \in {B("add", U("sin", s), B("pow", s, TInt(2))), B
 \* a user symbol that looks like a replacement symbol
 Clash == {<<B("add", B("mul", TSym("x0"), y), U("sin", B("mul", TSym("x0"), y)))>>, <<B("add", TSym("x0"), TSym("x1")), B("pow", B("add", TSym("x0"), TSym("x1")), TInt(2))>>,
           <<B("mul", x, TSym("x0")), U("exp", B("mul", x, TSym("x0"))), TSym("x1")>>}
-Cases == {[op |-> "cse", ts |-> t] : t \in Pairs \cup Triples \cup Singles \cup Clash}
+\* four or five sums / products over overlapping subsets of eight symbols (several shared pairs at once), bare and under a function
+Sy == {TSym(n) : n \in {"x", "y", "p", "q", "r", "c", "d", "e"}}
+Subsets == {S \in SUBSET Sy : Cardinality(S) \in 2..5}
+NA(k, S) == TOp(k, SetToSeq(S))
+Multi == {[i \in 1..4 |-> NA(k, ss[i])] : k \in {"add", "mul"}, ss \in Sub([1..4 -> Sub(Subsets, 40)], 150)}
+         \cup {[i \in 1..5 |-> NA(k, ss[i])] : k \in {"add", "mul"}, ss \in Sub([1..5 -> Sub(Subsets, 30)], 80)}
+         \cup {[i \in 1..4 |-> U(f, NA("add", ss[i]))] : f \in {"exp", "sin"}, ss \in Sub([1..4 -> Sub(Subsets, 30)], 40)}
+         \cup {<<NA("add", {x, y}), NA("add", {x, TSym("p"), TSym("c")}), NA("add", {x, TSym("p"), TSym("d"), TSym("e")}), NA("add", {x, y, TSym("p"), TSym("q"), TSym("r")})>>}
+Cases == {[op |-> "cse", ts |-> t] : t \in Pairs \cup Triples \cup Singles \cup Clash \cup Multi}
 ASSUME PrintT(<<"cases", Cardinality(Cases)>>)
 ASSUME ndJsonSerialize(IOEnv.OUT, SetToSeq(Cases))
 VARIABLE dummy
